@@ -345,7 +345,7 @@ func registerAll() {
 
 func TestPropProjects(t *testing.T) {
 	registerAll()
-	ev.Rapid(t, "projects", ev.N(2500, 25000), genCase, judged)
+	ev.Rapid(t, "projects", ev.N(8000, 25000), genCase, judged)
 }
 
 func TestPropRegressions(t *testing.T) {
